@@ -217,6 +217,15 @@ func (sh *shaper) of1(v ssa.Value) *Shape {
 			return &Shape{K: "raw", Of: v}
 		}
 	case *ssa.Extract:
+		if c, ok := x.Tuple.(*ssa.Call); ok && x.Index == 0 && isStringType(x.Type()) {
+			// the text result of a (string, error) renderer such as cast.ToStringE, or of a module helper
+			if cal := c.Call.StaticCallee(); cal != nil && (sh.a.fnInModule(cal) || calleeFull(&c.Call) != "") {
+				if s := sh.call(c); s.K != "unknown" {
+					return s
+				}
+			}
+			return &Shape{K: "raw", Of: v}
+		}
 		if ta, ok := x.Tuple.(*ssa.TypeAssert); ok && x.Index == 0 && isStringType(x.Type()) {
 			_ = ta
 			return &Shape{K: "raw", Of: v}
@@ -385,6 +394,7 @@ func (sh *shaper) replaceAll(c *ssa.Call) *Shape {
 	if len(chain) == 0 {
 		return unknown("ReplaceAll chain not recognised")
 	}
+	sh.of(inner) // the escaped text's provenance: nil tests and purity are judged on it
 	e := chain[0].old
 	if len(e) != 1 || chain[0].new != e+e {
 		return &Shape{K: "raw", Of: c} // a replacement that is not an escaping scheme: still arbitrary text
